@@ -10,8 +10,10 @@
    in discovery order; the order is an explicit parameter (Path.glob enumerates in file-system order).
 
    Definitions only.  The model describes the tree after the repairs D18 (Domain() copies
-   DEFAULT_TYPES), D26 (requirements are united instead of last-file-wins) and D27 (numeric goals
-   are de-duplicated by their PDDL text); the behaviour before D18 is kept as [InitAlias]. *)
+   DEFAULT_TYPES) and D27 (numeric goals are de-duplicated by their text); the behaviour before D18
+   is kept as [InitAlias], the behaviour before D27 as [merge_problem_identity].  The domain name and
+   the requirements are those of the file found last (they are not among the sections C17 speaks
+   about; the model records what the code does with them, the check does not judge them). *)
 From Coq Require Import List String Bool.
 From Verif Require Import Base.Result Base.Str.
 Import ListNotations.
@@ -65,7 +67,7 @@ Definition new_domain (defaults : alist) : domainv :=
 (* body of the loop of locate_domains (multi_agent_domain_converter.py:53-68) *)
 Definition merge_domain (c a : domainv) : domainv :=
   {| d_name := d_name a;                               (* last file wins *)
-     d_reqs := add_new (d_reqs c) (d_reqs a);          (* D26 repair; before: d_reqs a *)
+     d_reqs := d_reqs a;                               (* last file wins *)
      d_types := update (d_types c) (d_types a);
      d_consts := update (d_consts c) (d_consts a);
      d_preds := update (d_preds c) (d_preds a);
@@ -133,8 +135,8 @@ Definition merge_facts (c a : flist) : flist := fold_left merge_key a c.
 
 (* body of the loop of combine_problems (multi_agent_problem_converter.py:31-67).
    list(set(goals)): the iteration order of that set (str hashes) is not modelled; the observable is
-   compared as a set.  Numeric goals: D27 repair (before: p_ngoals c ++ p_ngoals a, a set of
-   identity-hashed trees). *)
+   compared as a set.  Numeric goals: after the D27 repair a goal is added unless a goal with the same
+   text is already there (the texts known so far include the ones added from this very file). *)
 Definition merge_problem (c a : problemv) : problemv :=
   {| p_name := p_name a;
      p_objs := update (p_objs c) (p_objs a);
@@ -145,6 +147,19 @@ Definition merge_problem (c a : problemv) : problemv :=
 
 Definition combine_problems (files : list problemv) : problemv :=
   fold_left merge_problem files new_problem.
+
+(* before the D27 repair: `goal_state_fluents.update(...)` on a set of expression trees hashed by
+   identity -- every tree of every file is a new element *)
+Definition merge_problem_identity (c a : problemv) : problemv :=
+  {| p_name := p_name a;
+     p_objs := update (p_objs c) (p_objs a);
+     p_facts := merge_facts (p_facts c) (p_facts a);
+     p_fluents := update (p_fluents c) (p_fluents a);
+     p_goals := add_new [] (p_goals c ++ p_goals a);
+     p_ngoals := p_ngoals c ++ p_ngoals a |}.
+
+Definition combine_problems_identity (files : list problemv) : problemv :=
+  fold_left merge_problem_identity files new_problem.
 
 Definition combine_problems_r (files : list (result problemv)) : result problemv :=
   do fs <- mapM (fun x => x) files; Ok (combine_problems fs).
